@@ -589,3 +589,34 @@ pub fn replay(prop: &dyn Prop, ctx: &Ctx, path: &std::path::Path) -> i32 {
         }
     }
 }
+
+/// A context for libFuzzer targets (no corpus; findings from $VERIF_ROOT or /verif; scratch under the temp dir).
+pub fn fuzz_ctx() -> &'static Ctx {
+    static CTX: std::sync::OnceLock<Ctx> = std::sync::OnceLock::new();
+    CTX.get_or_init(|| {
+        let root = std::env::var("VERIF_ROOT").map(PathBuf::from).unwrap_or_else(|_| PathBuf::from("/verif"));
+        let scratch = root.join("out").join(format!("scratch-fuzz-{}", std::process::id()));
+        let _ = std::fs::create_dir_all(&scratch);
+        Ctx {
+            corpus: crate::corpus::Corpus::default(),
+            findings: crate::findings::Findings::load(&root),
+            root,
+            tier: Tier::Thorough,
+            seed: 0,
+            threads: 1,
+            scratch,
+            replay: false,
+        }
+    })
+}
+
+/// Bytes of a libFuzzer input as a choice tape (little-endian u32s).
+pub fn tape_from_bytes(data: &[u8]) -> Vec<u32> {
+    data.chunks(4)
+        .map(|c| {
+            let mut b = [0u8; 4];
+            b[..c.len()].copy_from_slice(c);
+            u32::from_le_bytes(b)
+        })
+        .collect()
+}
